@@ -127,15 +127,27 @@ def run(rep):
     rep.trusted_base = list(STD_TRUSTED) + ['axiom of sorted(): ascending permutation w.r.t. a total order on labels (differentially tested)']
     for a in STD_ASSUME:
         rep.assume(a)
-    rep.assume('the traversal-driven rebuilds of the five passes (_transform bodies, Circuit.dfs hooks), pipelines and cleanup are covered by the bounded stand-in only')
+    rep.assume('RemoveRedundantGates._transform is proved on an arbitrary circuit (both settings of allow_inputs_removal) with Circuit.dfs used through its contract — the exit-hook calls are exactly the gates reachable '
+               'from the outputs, each once, operands first (C20: c20_trav Traverse + DfsOrder) — and the two input comprehensions as order-preserving filter views; precondition: INPUT gates carry no operands; '
+               'unchanged definitions on a reachable-closed gate set give an identical truth table by rule R2; "never more gates" and the public transform() wrapper (pre/post transformers) are bounded-only')
+    rep.assume('the rebuilds of the other four passes (MergeUnaryOperators, MergeDuplicateGates, MergeEquivalentGates, cleanup), pipelines and compositions are covered by the bounded stand-in only')
     it = new_interp()
     pv = Prover(rep, it, 'C03')
     for c in signature_contracts():
         pv.run_contract(c)
     getter_obligations(rep, pv, it)
+    # RemoveRedundantGates._transform on an arbitrary circuit (c03_rrg.py; dfs through its contract proved under C20)
+    from .c03_rrg import Rrg
+    for allow in (False, True):
+        it.loop_specs.clear()
+        it.contracts.clear()
+        pv.run_contract(Rrg(allow))
+    it.loop_specs.clear()
+    it.contracts.clear()
+    it.filter_views = False
     a, b = z3.Bools('a b')
     canary(rep, pv, 'C03/canary/xor-ignores-multiplicity', [], z3.Xor(z3.Xor(a, a), b) == z3.Xor(a, b))
     refuted = pv.discharge(env.NPROC)
     finish_refuted(rep, pv, refuted)
     run_bounded(rep, 'C03', quick)
-    rep.extra['explanation'] = 'signature soundness of MergeDuplicateGates and the operand getter of MergeUnaryOperators proved from the real source; passes as a whole: bounded stand-in.'
+    rep.extra['explanation'] = 'RemoveRedundantGates proved on an arbitrary circuit; signature soundness of MergeDuplicateGates and the operand getter of MergeUnaryOperators proved from the real source; the other passes as a whole: bounded stand-in.'
